@@ -104,6 +104,9 @@ class _DT(object):
 
 
 def _cast(v, kind):
+    if isinstance(v, SymBool):
+        # a symbolic truth value stored as a number (e.g. sample = (u > p)): decided by the path explorer -> concrete 0/1
+        v = 1 if bool(v) else 0
     v = Sc.of(v)
     if kind != 'c' and not v.is_real:
         state.S.events.append('ComplexWarning: imaginary part discarded on store')
@@ -282,6 +285,10 @@ class SymArray(_np.ndarray):
 
     def astype(self, dt, **kw):
         k = kind_of_dtype(dt)
+        if k in ('i', 'b') and all(Sc.of(e).is_concrete for e in self.plain().flat):
+            # concrete integers (indices, counts): a real numpy integer array
+            return _np.array([int(Fraction(Sc.of(e).re)) if k == 'i' else bool(Sc.of(e).re != 0) for e in self.plain().flat],
+                             dtype=int if k == 'i' else bool).reshape(self.shape)
         out = SymArray(self.shape, k)
         out[...] = self.plain()
         return out
